@@ -14,11 +14,20 @@
 //   D <hex>*                 node::squared_distance_to_closest_node_
 //   F <x y z hex>*           node::force_
 //   A <nx ny nz area hex>*   cached face::normal_ and face::area_ of the live triangles in slot order
-// usage: h_solver <param.xml> <iters> <threads> <dump_every> [tx ty tz (hex)] [full|run|tissue]
+// with the mode word `slots` (C14, assembled iteration WITH remeshing) the `S` line is followed by
+//   J <solver::file_number_>
+// and every cell by the complete bookkeeping state in the format of harness/h_remesh.cpp / lean/Driver/C01.lean:
+//   R N <nb node slots> ; <used> <pos hex x3> <momentum hex x3> … | F <nb face slots> ; 1 n1 n2 n3 type <normal hex x3> <area hex> (or ; 0) …
+//     | E <nb edges> ; n1 n2 f1 f2 … (std::set order) | FN <free_node_queue_> | FF <free_face_queue_>
+// a std::exception thrown by run_iteration is reported as `X <integrity|badopt|other:what>` and ends the run.
+// usage: h_solver <param.xml> <iters> <threads> <dump_every> [tx ty tz (hex)] [full|run|tissue|slots]
 #include "proto.hpp"
 #include "simulation_initializer.hpp"
 #include "solver.hpp"
 #include <omp.h>
+#include <optional>
+#include <sstream>
+#include "custom_exception.hpp"
 
 using vproto::to_hex; using vproto::from_hex;
 
@@ -49,6 +58,43 @@ public:
             if(f.is_used_) std::cout << ' ' << f.n1_id_ << ' ' << f.n2_id_ << ' ' << f.n3_id_ << ' ' << f.type_id_;
         }
         std::cout << '\n';
+    }
+    // the complete bookkeeping state (mode `slots`), format of harness/h_remesh.cpp
+    static std::string hv(const vec3& v){ return to_hex(v.dx()) + " " + to_hex(v.dy()) + " " + to_hex(v.dz()); }
+    static void dump_slots(cell_ptr c){
+        std::ostringstream o;
+        o << "R N " << c->node_lst_.size();
+        for(const node& n : c->node_lst_){
+            o << " ; " << (n.is_used_ ? 1 : 0) << ' ' << hv(n.pos_) << ' ' <<
+            #if DYNAMIC_MODEL_INDEX == 0
+                hv(n.momentum_);
+            #else
+                hv(vec3(0,0,0));
+            #endif
+        }
+        o << " | F " << c->face_lst_.size();
+        for(const face& f : c->face_lst_){
+            if(f.is_used_) o << " ; 1 " << f.n1_id_ << ' ' << f.n2_id_ << ' ' << f.n3_id_ << ' ' << f.type_id_ << ' ' << hv(f.normal_) << ' ' << to_hex(f.area_);
+            else o << " ; 0";
+        }
+        o << " | E " << c->edge_set_.size();
+        for(const edge& e : c->edge_set_){
+            o << " ; " << e.n1() << ' ' << e.n2() << ' ';
+            // edge::f1()/f2() are noexcept and call optional::value(): never call them on an empty slot
+            if(e.is_manifold()){ o << e.f1() << ' ' << e.f2(); }
+            else{
+                std::optional<unsigned> only;
+                for(unsigned k = 0; k < c->face_lst_.size(); k++){ if(e.has_face(k)){ only = k; break; } }
+                if(only) o << only.value() << " -"; else o << "- -";
+            }
+        }
+        o << " | FN";
+        for(unsigned i : c->free_node_queue_) o << ' ' << i;
+        if(c->free_node_queue_.empty()) o << ' ';
+        o << " | FF";
+        for(unsigned i : c->free_face_queue_) o << ' ' << i;
+        if(c->free_face_queue_.empty()) o << ' ';
+        std::cout << o.str() << '\n';
     }
     // the additional state read by the next contact phase (mode `tissue`)
     static void dump_contact_state(cell_ptr c){
@@ -90,7 +136,14 @@ public:
     using solver::solver;
     double time() const { return time_integrator_ptr_->get_simulation_time(); }
     unsigned iteration() const { return iteration_; }
+    unsigned file_number() const { return file_number_; }
 };
+
+static std::string exc_name(const std::exception& e){
+    if(dynamic_cast<const mesh_integrity_exception*>(&e)) return "integrity";
+    if(dynamic_cast<const std::bad_optional_access*>(&e)) return "badopt";
+    return std::string("other:") + e.what();
+}
 
 int main(int argc, char** argv){
     if(argc < 5){ std::cerr << "usage\n"; return 2; }
@@ -122,10 +175,19 @@ int main(int argc, char** argv){
                 for(int i = 0; i <= iters; i++){
                     if(i % every == 0 || i == iters){
                         std::cout << "S " << s.iteration() << ' ' << to_hex(s.time()) << ' ' << s.get_cell_lst().size() << '\n';
-                        for(cell_ptr c : s.get_cell_lst()){ cell_tester::dump(c, true); if(mode == "tissue") cell_tester::dump_contact_state(c); }
+                        if(mode == "slots") std::cout << "J " << s.file_number() << '\n';
+                        for(cell_ptr c : s.get_cell_lst()){
+                            cell_tester::dump(c, true);
+                            if(mode == "tissue") cell_tester::dump_contact_state(c);
+                            if(mode == "slots") cell_tester::dump_slots(c);
+                        }
                     }
                     if(i == iters || s.get_cell_lst().empty()) break;
-                    s.run_iteration();
+                    if(mode == "slots"){
+                        try{ s.run_iteration(); }
+                        catch(const std::exception& e){ std::cout << "X " << exc_name(e) << '\n'; break; }
+                    }
+                    else s.run_iteration();
                 }
             }
             std::cout << "END\n";
